@@ -8,8 +8,11 @@
     [run gc init tr = Some s]: the trace is executable (every step enabled).
     [gc = true] is the repaired code, [gc = false] the code before. *)
 From Coq Require Import List NArith Bool.
-From MM Require Import Model.SleepSM Proofs.SleepSMProofs.
+From MM Require Import Model.SleepSM Proofs.SleepSMProofs Generated.C30.
 Import ListNotations.
+From Coq Require String.
+Delimit Scope string_scope with string.
+Import String.StringSyntax.
 
 (** Only the documented edges: every step of every interleaving leaves the
     state alone or moves it awake->sleeping, sleeping->polling,
@@ -87,3 +90,26 @@ Theorem C30_persist_matches_modulo_polling_partial : forall gc tr s,
   run gc init tr = Some s -> collapse (s_state s) = s_persist s.
 Proof. exact persist_matches_modulo_polling. Qed.
 Print Assumptions C30_persist_matches_modulo_polling_partial.
+
+(** Source facts regenerated on this run: the order of locking, callbacks,
+    state stores, timer operations, generation reads/writes and persistState
+    calls inside Manager.Sleep, Wake and Poll - the atomic steps of the model.
+    Sleep and Wake are one lock region until they return (deferred unlock) with
+    the callback before the state store; Wake stops the timer before its
+    callback and advances the generation with the store; Poll's first region
+    stores POLLING, reads the generation and does not persist; OnPoll and the
+    wait run without the lock; the second region re-checks "awake or other
+    generation" before OnPollEnd, the SLEEPING store, re-arming and persisting. *)
+Theorem C30_source_facts :
+  gen_c30_sleep_markers = ["m.stateMu.Lock"; "m.stateMu.Unlock"; "callback:OnSleep"; "store:StateSleeping"; "m.schedulePollLocked"; "m.persistState"]%string /\
+  gen_c30_sleep_one_region_until_return = true /\
+  gen_c30_wake_markers = ["m.stateMu.Lock"; "m.stateMu.Unlock"; "m.pollTimer.Stop"; "callback:OnWake"; "store:StateAwake"; "wakeGen++"; "m.persistState"]%string /\
+  gen_c30_wake_one_region_until_return = true /\
+  gen_c30_poll_markers = ["m.stateMu.Lock"; "m.stateMu.Unlock"; "store:StatePolling"; "read-wakeGen"; "m.stateMu.Unlock";
+                          "callback:OnPoll"; "time.After";
+                          "m.stateMu.Lock"; "m.stateMu.Unlock"; "recheck:awake-or-generation"; "callback:OnPollEnd";
+                          "store:StateSleeping"; "m.schedulePollLocked"; "m.persistState"]%string /\
+  gen_c30_poll_second_region_until_return = true /\
+  gen_c30_schedule_stops_old_timer_first = true.
+Proof. repeat split; reflexivity. Qed.
+Print Assumptions C30_source_facts.
